@@ -25,7 +25,12 @@ def scenarios(res):
         # every scenario ends with full iterations at several page sizes and patterns
         for cnt in (1, 2, 3, 10, 1000):
             sc["ops"].append(["scanall", "a", cnt, 0])
-        sc["ops"] += [["scanall", "a", 1, 98], ["scanall", "a", 2, 99], ["scanall", "a", 1, 123], ["scanall", "b", 1, 0]]
+        sc["ops"] += [["scanall", "a", 1, 98], ["scanall", "a", 2, 99], ["scanall", "a", 1, 123], ["scanall", "b", 1, 0],
+                      ["scanall", "a", 1000, 257 + 98]]
+        # a pattern that is not anchored and matches inside the key: the byte some key of this scenario carries after its first
+        inner = sorted({bytes.fromhex(op[3])[1] for op in sc["ops"] if op[0] in ("put", "putraw") and len(op[3]) >= 4 and bytes.fromhex(op[3])[1] < 128})   # Go's \xNN is a code point: only ASCII denotes one byte
+        for b in inner[:2]:
+            sc["ops"] += [["scanall", "a", 2, 257 + b], ["scanall", "a", 1, 257 + b]]
         scs.append(sc)
         sid += 1
     return scs, ncorpus, 0, n
@@ -68,6 +73,10 @@ def cluster_scan_scenario(rng, sid, members):
     for sc in scans:
         if sc.get("match") and sc["match"] != ".":
             sc["match"] = "^" + sc["match"]
+    # patterns that are not anchored: a literal that occurs inside the key, a suffix, a literal followed by a class
+    for c in ("cc", "emb@owner", "emb@other"):
+        for pat in ("00", "5$", "1[0-9]$", "a00"):
+            scans.append({"op": "iterscan", "c": c, "d": d, "count": rng.choice([0, 2]), "match": pat})
     return {"id": sid, "ops": ops + scans, "_live": sorted(live)}
 
 
